@@ -518,11 +518,14 @@ package parser
 //@   site PARSED = call parser.yyParse
 //@   ensures[C10 C03] slot-untouched-after-the-parse: err == nil ==> result2 == after(PARSED, l.err)
 //@   ensures[C10 C03] returns-error-slot: err == nil ==> result2 == l.err
+//@   ensures[C09] the-comments-are-those-the-lexer-collected: err == nil ==> result1 == after(PARSED, l.comments)
+//@   ensures[C07 C09] the-commands-are-those-the-parser-stored: err == nil ==> result0 == after(PARSED, l.cmds)
 
 // open only wraps its argument: it reads nothing from it (a read made here
 // could swallow a failure before the lexer's error slot exists).
 //@ func open
 //@   callsonly[C10 C07 C15] bytes.NewReader strings.NewReader bufio.NewReader errors.New
+//@   assert[C07 C10] at call bufio.NewReader: a-plain-reader-is-buffered-as-it-is: arg0 == src
 //@   ensures[C07] a-rune-scanner-is-read-directly: (src is *strings.Reader || src is *bytes.Reader || src is *bufio.Reader) ==> err == nil && r == src
 //@   ensures err == nil ==> r != nil
 
